@@ -8,6 +8,15 @@ JARS = "/opt/veriftools/tla/tla2tools.jar:/opt/veriftools/tla/CommunityModules-d
 NCPU = os.cpu_count() or 4
 
 
+def _die_with_parent():
+    """child JVMs get SIGKILL when the check process dies (no stray TLC after an outer timeout)"""
+    try:
+        import ctypes
+        ctypes.CDLL("libc.so.6").prctl(1, 9)
+    except Exception:
+        pass
+
+
 class MachineryError(Exception):
     """TLC crashed / trace not consumed / vacuity guard: exit code 2, never a violation."""
 
@@ -39,7 +48,7 @@ def run_model(module, cfg, workers=NCPU, extra=(), timeout=3600, coverage=False,
             cmd += ["-coverage", "1"]
         cmd += list(extra) + [os.path.join(SPEC, module + ".tla")]
         t0 = time.time()
-        pr = subprocess.run(cmd, cwd=wd, capture_output=True, text=True, timeout=timeout)
+        pr = subprocess.run(cmd, cwd=wd, capture_output=True, text=True, timeout=timeout, preexec_fn=_die_with_parent)
         out = pr.stdout + pr.stderr
         res = parse_model_output(out)
         res["wall_s"] = time.time() - t0
@@ -106,7 +115,7 @@ def judge_shard(path, module="TraceJudge", cfg="TraceJudge.cfg", timeout=3600, x
                          "-config", os.path.join(CFG, cfg), os.path.join(SPEC, module + ".tla")]
         env = dict(os.environ)
         env["TRACE_FILE"] = path
-        pr = subprocess.run(cmd, cwd=wd, capture_output=True, text=True, timeout=timeout, env=env)
+        pr = subprocess.run(cmd, cwd=wd, capture_output=True, text=True, timeout=timeout, env=env, preexec_fn=_die_with_parent)
         out = pr.stdout + pr.stderr
         if "Model checking completed. No error has been found." not in out:
             lines = out.splitlines()
